@@ -39,7 +39,7 @@ def nontrivial(items, res):
 
 
 def alphabet(tier):
-    syms = (progs.pick(progs.XFER, 'beq8', 'bne56', 'jal0', 'jal1', 'j', 'call', 'tail', 'c.j', 'c.jB', 'c.beqzB') +
+    syms = (progs.pick(progs.XFER, 'beq8', 'bne56', 'jal0', 'jal1', 'j', 'call', 'tail', 'c.j', 'c.jB', 'c.beqzB', 'bgtz9') +
             progs.pick(progs.CODE_C, 'addi8') + progs.pick(progs.CODE_N, 'add567') +
             progs.pick(progs.VAR, 'li1', 'liL') + progs.pick(progs.DATA, 'dh') + progs.pick(progs.ALIGN, 'al4') + [progs.DEF])
     if tier == 'thorough':
